@@ -97,7 +97,7 @@ Inductive rphase :=
 | QFlight (g : N)    (* request written on wire incarnation g, waiting for the response *)
 | QAck (g : N)       (* call written on g; waiting for the ack outside send() *)
 | QDone.
-Inductive resp := RespOk | RespRefused.
+Inductive resp := RespOk | RespRefused | RespConflict.  (* conflict = RESUME_REQUEST_CONFLICT: not final, retry.Do sends the request again *)
 
 Record stream := mkS { s_id : N; s_down : bool; s_held : N; s_phase : sphase; s_buf : bool }.
 Record req := mkQ { q_id : N; q_kind : rkind; q_phase : rphase }.
@@ -289,6 +289,10 @@ Definition resume_resp_step (c : conn) (i : N) (r : resp) : conn * list out :=
               | RespRefused =>
                   (set_streams c (upd_s i (fun s => set_phase s (SClosed true false)) (c_streams c)),
                    [OCloseReq (c_gen c) i; OStreamClosed i true])
+              | RespConflict =>
+                  (* the broker still holds the old incarnation of the stream: not a final answer; retry.Do
+                     writes the resume request again; whatever an earlier attempt answered is forgotten *)
+                  (c, [OResumeReq (c_gen c) i (s_down s)])
               end
             else (c, [])
           else
@@ -531,6 +535,36 @@ Definition stream_api_closed (byuser : bool) (a : api) : rclass :=
   | ADownClose => RNil
   | _ => ROther
   end.
+
+(* ------------------------------------------------------------------------------------------ *)
+(* event_dispatcher.go: addHandler appends to a FIFO; dispatchLoop takes the whole queue as a batch,
+   runs it outside the lock, and looks at its context ONLY while the queue is empty - so whatever was
+   queued before or while a (slow) batch runs is delivered before the loop exits. *)
+Inductive dev :=
+| DAdd (h : N)     (* addHandler *)
+| DCancel          (* the dispatcher's context is cancelled (the stream supervisor returned) *)
+| DTake            (* the loop is scheduled at its head: exit / wait / take the queue as a batch *)
+| DDone.           (* the batch it was running returns (user handlers may be slow) *)
+Record dstate := mkD { d_q : list N; d_batch : list N; d_running : bool; d_delivered : list N; d_ctx : bool; d_exited : bool }.
+Definition dinit : dstate := mkD [] [] false [] false false.
+(* [hasty] = the loop also leaves when its context is done right after a batch (NOT the code) *)
+Definition dstep (hasty : bool) (s : dstate) (e : dev) : dstate :=
+  match e with
+  | DAdd h => mkD (d_q s ++ [h]) (d_batch s) (d_running s) (d_delivered s) (d_ctx s) (d_exited s)
+  | DCancel => mkD (d_q s) (d_batch s) (d_running s) (d_delivered s) true (d_exited s)
+  | DTake =>
+      if d_exited s || d_running s then s
+      else match d_q s with
+           | [] => if d_ctx s then mkD [] [] false (d_delivered s) true true else s
+           | q => mkD [] q true (d_delivered s) (d_ctx s) false
+           end
+  | DDone =>
+      if d_running s then
+        mkD (d_q s) [] false (d_delivered s ++ d_batch s) (d_ctx s) (hasty && d_ctx s)
+      else s
+  end.
+Definition drun (hasty : bool) (s : dstate) (evs : list dev) : dstate := fold_left (dstep hasty) evs s.
+Definition dadds (evs : list dev) : list N := concat (map (fun e => match e with DAdd h => [h] | _ => [] end) evs).
 
 (* a stream call that is PENDING (a writer blocked in WriteDataPoints because no flush loop exists during
    an outage, a Flush caller, a consumer blocked in ReadDataPoints / ReadMetadata): every such wait has the
